@@ -286,7 +286,29 @@ func c11CheckMalformed(r *fw.Rec, text string) {
 // else (and lone surrogates) must be a compile error.
 const c11UAlpha = "04aFd8g+- _x"
 
-func c11EscapeGridN() int64 { return 12*12*12*12 + 95 }
+// c11EscapeOther: the characters after a backslash that are not printable
+// ASCII: controls, U+0080..U+024F, and for each of the eight escape letters the
+// characters that share its low bits (c + 256k, c + 65536k).
+var c11EscapeOther = func() []rune {
+	var rs []rune
+	for c := rune(0); c < 0x20; c++ {
+		rs = append(rs, c)
+	}
+	for c := rune(0x7f); c <= 0x24f; c++ {
+		rs = append(rs, c)
+	}
+	for _, c := range `"\/bfnrtu` {
+		for k := rune(3); k <= 64; k++ {
+			rs = append(rs, c+256*k)
+		}
+		for k := rune(1); k <= 16; k++ {
+			rs = append(rs, c+65536*k)
+		}
+	}
+	return rs
+}()
+
+func c11EscapeGridN() int64 { return 12*12*12*12 + 95 + int64(len(c11EscapeOther)) }
 
 func c11EscapeGrid(r *fw.Rec, i int64) {
 	var esc string
@@ -297,8 +319,10 @@ func c11EscapeGrid(r *fw.Rec, i int64) {
 			i /= 12
 		}
 		esc = string(b)
-	} else {
+	} else if i < 12*12*12*12+95 {
 		esc = "\\" + string(rune(0x20+i-12*12*12*12))
+	} else {
+		esc = "\\" + string(c11EscapeOther[i-12*12*12*12-95])
 	}
 	text := `"x` + esc + `y"`
 	var want string
@@ -321,7 +345,7 @@ func init() {
 	fw.Register(&fw.Prop{
 		ID: "C11", Title: "JSON texts are expressions that denote themselves",
 		Rule: fmt.Sprintf("cases: (a) exhaustive: all %d string literals of <=3 units over a 20-unit alphabet of JSON escapes (incl. \\uXXXX and a surrogate pair), raw BMP/astral characters and JSONata metacharacters, each double-quoted and rewritten single-quoted; ", nStr) +
-			"(b) a fixed list of malformed texts (bad escapes, unpaired surrogates, out-of-range and non-JSON numbers, trailing commas, unterminated strings) that must be compile errors; (b2) the escape grid: \\u followed by each of the 20736 four-character strings over the alphabet 0 4 a F d 8 g + - space _ x, and a backslash followed by each printable ASCII character: what encoding/json accepts must denote the same value, everything else and lone surrogates must be compile errors; (c) PRNG-generated RFC 8259 texts of depth<=5, width<=4 with unique keys: every escape form, all number syntaxes (-0, exponent forms, 17+ digits, subnormals, 1e308), empty and nested containers, arbitrary inter-token whitespace. " +
+			"(b) a fixed list of malformed texts (bad escapes, unpaired surrogates, out-of-range and non-JSON numbers, trailing commas, unterminated strings) that must be compile errors; (b2) the escape grid: \\u followed by each of the 20736 four-character strings over the alphabet 0 4 a F d 8 g + - space _ x, and a backslash followed by each printable ASCII character, each control character, each character of U+0080..U+024F and the characters that share the low bits of an escape letter: what encoding/json accepts must denote the same value, everything else and lone surrogates must be compile errors; (c) PRNG-generated RFC 8259 texts of depth<=5, width<=4 with unique keys: every escape form, all number syntaxes (-0, exponent forms, 17+ digits, subnormals, 1e308), empty and nested containers, arbitrary inter-token whitespace. " +
 			"Oracle: encoding/json's decoding of the same text; EvalBytes(text-as-expression) on five different inputs (null, an object, an empty array, an array of empty containers, a string) must decode to exactly that value (numbers bit-for-bit, the sign of zero included). non-trivial = every case; distinct by text",
 		Assumptions: []string{"encoding/json is the JSON parser of reference, except for unpaired surrogates, where the statement (compile error) is the oracle", "object keys are unique"},
 		Plan: func(tier string, seed uint64) *fw.Plan {
